@@ -160,6 +160,83 @@ def c20_single_letters(seed):
                      'lists', 'evaluations': n, 'failures': fails[:5]}
 
 
+def c20_equation_punct(seed):
+    """create_equation_punct_messages against a regex-free reference: a
+    placeholder is flagged unless it is followed (after optional white
+    space) by a full stop, or -- optionally after one of , ; : -- by another
+    placeholder or by a word whose FIRST letter is lower case.  All texts
+    of <= 4 pieces over 11 pieces, modes displayed / all"""
+    import types
+    from pyvc import replay as _r
+    ch = _r.real_module('yalafi.shell.checks')
+    ch.cmdline = types.SimpleNamespace(context=20)
+    phs = ['U-U-U', 'V-V-V']
+    pieces = phs + [' ', '\n', ',', '.', ';', 'abc', 'Abc', 'kHz', '1']
+
+    def ref(txt):
+        out = []
+        i = 0
+        while i < len(txt):
+            hit = next((p for p in phs if txt.startswith(p, i)), None)
+            wb = hit and (i == 0 or not (txt[i - 1].isalnum() or
+                                         txt[i - 1] == '_'))
+            if hit and wb:
+                e = i + len(hit)
+                if e < len(txt) and (txt[e].isalnum() or txt[e] == '_'):
+                    i += 1
+                    continue
+                j = e
+                while j < len(txt) and txt[j].isspace():
+                    j += 1
+                ok = False
+                if j < len(txt) and txt[j] == '.':
+                    ok = True
+                else:
+                    k = j
+                    if k < len(txt) and txt[k] in ',;:':
+                        k += 1
+                    while k < len(txt) and txt[k].isspace():
+                        k += 1
+                    nxt = next((p for p in phs if txt.startswith(p, k)),
+                               None)
+                    if nxt and not (k + len(nxt) < len(txt) and (
+                            txt[k + len(nxt)].isalnum() or
+                            txt[k + len(nxt)] == '_')):
+                        ok = True
+                    elif k < len(txt) and txt[k].isalpha():
+                        ok = txt[k].islower()
+                if not ok:
+                    out.append(i)
+                i = e
+            else:
+                i += 1
+        return out
+    n, fails = 0, []
+    for ln in range(0, 5):
+        for t in itertools.product(pieces, repeat=ln):
+            txt = ''.join(t)
+            for mode in ('displayed', 'all'):
+                n += 1
+                cmd = types.SimpleNamespace(equation_punctuation=mode)
+                ms = ch.create_equation_punct_messages(
+                    txt, cmd, 'U-U-U|V-V-V', 'W-W-W', 'U-U-U|V-V-V|W-W-W')
+                got = sorted(m['offset'] for m in ms)
+                want = ref(txt)
+                if got != want:
+                    fails.append({'txt': txt, 'mode': mode, 'flagged': got,
+                                  'expected': want})
+                    if len(fails) >= 3:
+                        break
+            if len(fails) >= 3:
+                break
+        if len(fails) >= 3:
+            break
+    return {'name': 'equation-punctuation-against-reference',
+            'bounded': True,
+            'bound': 'all texts of <= 4 pieces over 11 pieces x 2 modes',
+            'evaluations': n, 'failures': fails[:3]}
+
+
 # all three are fast enough for the quick tier: they are referenced from the
 # QUICK_BOUNDED lists of props/C13.py, C16.py, C20.py
 BOUNDED = {}
